@@ -433,7 +433,14 @@ func vfIteI64(c bool, x, y int64) int64 {
 }
 
 // vfDigit returns a symbolic ASCII digit.
+// vfConcreteHoles makes the simple holes of the statement generators concrete
+// (used by harnesses that vary something else and do not want numeric reasoning).
+var vfConcreteHoles bool
+
 func vfDigit() byte {
+	if vfConcreteHoles {
+		return '3'
+	}
 	c := vfByte()
 	vfAssume(c >= '0')
 	vfAssume(c <= '9')
@@ -498,3 +505,4 @@ func fmtAny(v interface{}) string { return fmt.Sprintf("%T(%v)", v, v) }
 // feasible values of every byte and returns a concrete string (used to compare
 // a symbolic library model against the native function).
 func vfConcretize(s string) string { return s }
+func vfLooseLibraries() {}
